@@ -1,7 +1,9 @@
-\* documentation / non-vacuity: without the known-defect exception TLC must refute the invariant (see Armor.tla, ShortCrcLine)
+\* DOCUMENTATION ONLY (finding C46-F1, fixed in /repo 5d307c4): with the pre-fix treatment of a short checksum line switched on,
+\* TLC refutes CorruptRejected.  Nothing here is expected of the code; the default model rejects such a line.
 SPECIFICATION Spec
 CONSTANTS
   Inputs <- ShortCrcOnly
   Mutations = {"flip"}
-INVARIANTS CorruptRejectedStrict
+  PreFixShortCrc <- AlwaysTrue
+INVARIANTS CorruptRejected
 CHECK_DEADLOCK FALSE
